@@ -39,9 +39,11 @@ Exprs == IF Full
 Conds == IF Full
          THEN { C, Cmp(A, "Gt", B), Un("Not", C), Bo("And", <<C, Cmp(A, "Gt", K("int:0"))>>), Bo("Or", <<Cmp(A, "Gt", B), C>>),
                 Cl("any", <<Ls(<<C, Cmp(A, "Gt", B)>>)>>), Un("Not", Bo("And", <<C, Cmp(A, "Gt", B)>>)), Cl("all", <<Ls(<<C, Cmp(A, "Gt", K("int:0"))>>)>>),
-                Bo("And", <<Un("Not", C), Un("Not", Cmp(A, "Gt", B))>>), Bo("Or", <<Un("Not", C), Un("Not", Cmp(A, "Gt", B)), Cmp(B, "Gt", K("int:1"))>>) }
+                Bo("And", <<Un("Not", C), Un("Not", Cmp(A, "Gt", B))>>), Bo("Or", <<Un("Not", C), Un("Not", Cmp(A, "Gt", B)), Cmp(B, "Gt", K("int:1"))>>),
+                \* every comparison operator, plain and negated (operands are equal in some environments)
+                Un("Not", Cmp(A, "GtE", B)), Un("Not", Cmp(A, "Lt", B)), Cmp(A, "LtE", B), Un("Not", Cmp(A, "LtE", B)), Un("Not", Cmp(A, "Eq", B)), Cmp(A, "NotEq", B) }
          ELSE { C, Cmp(A, "Gt", B), Un("Not", C), Bo("And", <<C, Cmp(A, "Gt", K("int:0"))>>), Cl("any", <<Ls(<<C, Cmp(A, "Gt", B)>>)>>),
-                Bo("Or", <<Un("Not", C), Un("Not", Cmp(A, "Gt", B))>>) }
+                Bo("Or", <<Un("Not", C), Un("Not", Cmp(A, "Gt", B))>>), Un("Not", Cmp(A, "GtE", B)), Un("Not", Cmp(A, "Lt", B)), Cmp(A, "LtE", B) }
 Kinds == {"asg", "aug", "if-asg", "if-aug", "if-asg-asg", "if-aug-aug", "if-aug-asg", "if-asg-aug", "if-ret-ret", "if-ret", "elif", "ret-expr", "if-asg-other"}
 Inits == {A, K("int:1")}
 
